@@ -39,8 +39,20 @@ def gen_scenario(rng):
     world = gen_world(rng, ngraphs=(1, 3), neps=(0, 24))
     cfg = gen_cfg(rng)
     turns = gen_turns(rng, world)
+    boot = rng.random() < 0.4
+    if rng.random() < 0.2:
+        # GEL-active class: the graph layer is on, retrieval returns several episodes per turn (co-activation edges,
+        # merge / split / promotion bookkeeping) and the state boots through the real loader
+        from vlib.cfggen import gate_cfg, merge
+        world = gen_world(rng, ngraphs=(1, 2), neps=(8, 24))
+        cfg = merge(cfg, gate_cfg(rng, "gel", True))
+        cfg["graph"]["coactivation_threshold"] = 0.0
+        cfg["t2"].update({"sim_threshold": -1.0, "k_retrieval": max(4, cfg["t2"]["k_retrieval"]), "owner_scope": "any"})
+        cfg["t2"].pop("tiers", None)
+        turns = gen_turns(rng, world, n=(3, 6))
+        boot = rng.random() < 0.7
     # some scenarios boot from an (empty) snapshot directory: the first turn runs the real boot loader
-    return {"world": world, "cfg": cfg, "turns": turns, "boot_from_snapshot": rng.random() < 0.4}
+    return {"world": world, "cfg": cfg, "turns": turns, "boot_from_snapshot": boot}
 
 
 def variants_for(sc, rng, tier):
@@ -159,8 +171,8 @@ def main(tier: str, seed: int):
     sess = Session(PID, tier, seed, level="exploration", rule=RULE)
     sess.assume("time budgets (quantum_ms, wall_ms, time_ms_reflection) are declared inputs: scenarios set them far above any elapsed time so that clock variants stay on the same side of them")
     sess.assume("optional backends absent from the image are not exercised: LanceDB, zstd snapshot codec (the writer degrades to none), real BGE encoder, Ollama")
-    total = 12 if tier == "quick" else 800
-    nchunks = 4 if tier == "quick" else 8
+    total = 32 if tier == "quick" else 800
+    nchunks = 8
     per = max(1, total // nchunks)
     for ex in par.pmap(_chunk, [(tier, seed, i, per) for i in range(nchunks)], workers=nchunks):
         sess.merge(ex)
